@@ -329,42 +329,6 @@ pub(crate) mod verif_row {
         keep_commb_only(o, n);
     }
 
-    fn short_step(path: Path) {
-        let mut m = any_frame14();
-        let dfv: u32 = kani::any();
-        kani::assume(dfv <= 15);
-        set_bits(&mut m, 1, 5, dfv);
-        let df = decoder::get_downlink_format(&m).unwrap();
-        kani::assume(decoder::get_icao(&m, df).is_some()); // accepted frames have a non-zero address
-        let relaxed: bool = kani::any();
-        let old = any_plane(false);
-        let mut new = clone_plane(&old);
-        apply(&mut new, &m, df, relaxed, path);
-        check_short(&old, &new, &m, df, path);
-        kani::cover!(df == 4, "DF4");
-        kani::cover!(df == 5, "DF5");
-        kani::cover!(df == 11, "DF11");
-        kani::cover!(true, "reach_end");
-    }
-
-    //@ob id=L2.step.short.update flags=noassert props=C05,C06,C11,C12 tier=thorough mem=high kind=harness fns=plane/from_squitter.rs:Plane::update,plane/from_squitter/from_bcast.rs:update_from_bcast draw=frame14
-    //@region -U path (Plane::update), all 56-bit frames DF0..15 with non-zero address x all prior row states x -R: DF4 sets altitude, DF5 squawk, DF11 CA; time stamp restarts; every other field unchanged
-    #[kani::proof]
-    #[kani::unwind(34)]
-    #[kani::stub(chrono::Utc::now, now_rec)]
-    fn l2_step_short_update() {
-        short_step(Path::Update);
-    }
-
-    //@ob id=L2.step.short.downlink flags=noassert props=C05,C06,C11,C12,C19 tier=thorough mem=high kind=harness fns=plane/from_downlink.rs:update_from_downlink,plane/from_downlink/from_srt.rs:update_from_downlink,downlink/short.rs:Srt::update,downlink/dfs.rs:DF::from_message draw=frame14
-    //@region default path (DF::from_message + update_from_downlink), same frames and rows: same effect as the -U path
-    #[kani::proof]
-    #[kani::unwind(34)]
-    #[kani::stub(chrono::Utc::now, now_rec)]
-    fn l2_step_short_downlink() {
-        short_step(Path::Downlink);
-    }
-
     // ================================================================= extended squitters (DF17)
     // Ghost-recording stand-ins for the float-heavy callees of the position and velocity
     // updates; their own contracts are separate obligations (C08.*, C09.velocity.*).
@@ -620,72 +584,4 @@ pub(crate) mod verif_row {
             keep_position(o, n);
         }
     }
-
-    /// lo..=hi type codes; st_sel: None = any subtype
-    fn ext_step(path: Path, tc_lo: u32, tc_hi: u32, times: bool) {
-        let mut m = any_frame28();
-        set_bits(&mut m, 1, 5, 17);
-        let tcv: u32 = kani::any();
-        kani::assume(tcv >= tc_lo && tcv <= tc_hi);
-        set_bits(&mut m, 33, 37, tcv);
-        kani::assume(decoder::get_icao(&m, 17).is_some());
-        let relaxed: bool = kani::any();
-        let old = any_plane(times);
-        let mut new = clone_plane(&old);
-        apply(&mut new, &m, 17, relaxed, path);
-        check_ext(&old, &new, &m, path);
-        kani::cover!(true, "reach_end");
-    }
-
-    macro_rules! ext_harness {
-        ($name:ident, $path:expr, $lo:expr, $hi:expr, $times:expr) => {
-            #[kani::proof]
-            #[kani::unwind(34)]
-            #[kani::stub(chrono::Utc::now, now_rec)]
-            #[kani::stub(crate::decoder::ehs::track_and_groundspeed, tgs_rec)]
-            #[kani::stub(crate::decoder::cpr_location, loc_rec)]
-            #[kani::stub(crate::decoder::observer::get_observer_coords, obs_rec)]
-            #[kani::stub(crate::decoder::plane::update_position::haversine, hav_rec)]
-            fn $name() {
-                ext_step($path, $lo, $hi, $times);
-            }
-        };
-    }
-
-    //@ob id=L2.step.ext.tc1_4.update flags=noassert props=C07,C11,C12 tier=thorough mem=high kind=harness fns=plane/from_squitter.rs:Plane::update,plane/from_squitter/from_ext.rs:update_from_ext draw=frame28
-    //@region -U path, all DF17 frames TC1-4 x all rows: callsign and category set, everything else unchanged
-    ext_harness!(l2_step_ext_tc1_4_update, Path::Update, 1, 4, false);
-    //@ob id=L2.step.ext.tc1_4.downlink flags=noassert props=C07,C11,C12,C19 tier=thorough mem=high kind=harness fns=plane/from_downlink/from_ext.rs:update_from_downlink,downlink/extended/update.rs:Ext::update draw=frame28
-    //@region default path, same frames and rows
-    ext_harness!(l2_step_ext_tc1_4_downlink, Path::Downlink, 1, 4, false);
-    //@ob id=L2.step.ext.tc5_8.update flags=noassert props=C08,C11,C12 tier=thorough mem=high kind=harness fns=plane/from_squitter.rs:Plane::update,plane/from_squitter/from_ext.rs:update_from_ext_5_8,plane/update_position.rs:update_position draw=frame28
-    //@region -U path, all DF17 surface-position frames TC5-8 x all rows incl. symbolic CPR slots and receive times: altitude blanked, track/ground movement set, CPR pairing rule
-    ext_harness!(l2_step_ext_tc5_8_update, Path::Update, 5, 8, true);
-    //@ob id=L2.step.ext.tc5_8.downlink flags=noassert props=C08,C11,C12,C19 tier=thorough mem=high kind=harness fns=plane/from_downlink/from_ext.rs:amend_from_ext_5_8,plane/update_position.rs:update_position draw=frame28
-    //@region default path, same frames and rows
-    ext_harness!(l2_step_ext_tc5_8_downlink, Path::Downlink, 5, 8, true);
-    //@ob id=L2.step.ext.tc9_18.update flags=noassert props=C05,C08,C11,C12 tier=thorough mem=high kind=harness fns=plane/from_squitter.rs:Plane::update,plane/from_squitter/from_ext.rs:update_from_ext_9_18,plane/from_squitter/from_ext.rs:update_cpr,plane/update_position.rs:update_position draw=frame28
-    //@region -U path, all DF17 airborne-position frames TC9-18 x all rows incl. symbolic CPR slots and receive times: altitude, surveillance status, CPR slot and receive time stored; position changes iff both slots non-zero, < 10 s apart, global decode succeeds in range
-    ext_harness!(l2_step_ext_tc9_18_update, Path::Update, 9, 18, true);
-    //@ob id=L2.step.ext.tc9_18.downlink flags=noassert props=C05,C08,C11,C12,C19 tier=thorough mem=high kind=harness fns=plane/from_downlink/from_ext.rs:amend_from_ext_9_18,plane/from_downlink/from_ext.rs:amend_cpr,plane/update_position.rs:update_position draw=frame28
-    //@region default path, same frames and rows
-    ext_harness!(l2_step_ext_tc9_18_downlink, Path::Downlink, 9, 18, true);
-    //@ob id=L2.step.ext.tc19.update flags=noassert props=C09,C11,C12 tier=thorough mem=high kind=harness fns=plane/from_squitter.rs:Plane::update,plane/from_squitter/from_ext.rs:update_from_ext_19 draw=frame28
-    //@region -U path, all DF17 velocity frames TC19 (all subtypes) x all rows: vertical rate, track, ground speed (subtype 1/2), heading (3/4), GNSS altitude from delta
-    ext_harness!(l2_step_ext_tc19_update, Path::Update, 19, 19, false);
-    //@ob id=L2.step.ext.tc19.downlink flags=noassert props=C09,C11,C12,C19 tier=thorough mem=high kind=harness fns=plane/from_downlink/from_ext.rs:amend_from_ext_19,downlink/extended/update.rs:update_mt_19 draw=frame28
-    //@region default path, same frames and rows: the decoded velocity must reach the row here too
-    ext_harness!(l2_step_ext_tc19_downlink, Path::Downlink, 19, 19, false);
-    //@ob id=L2.step.ext.tc20_31.update flags=noassert props=C11,C12 tier=thorough mem=high kind=harness fns=plane/from_squitter.rs:Plane::update,plane/from_squitter/from_ext.rs:update_from_ext draw=frame28
-    //@region -U path, all DF17 frames TC20-31 and TC0 x all rows: GNSS altitude + status (20-22), version (31), nothing for the rest
-    ext_harness!(l2_step_ext_tc20_31_update, Path::Update, 20, 31, false);
-    //@ob id=L2.step.ext.tc20_31.downlink flags=noassert props=C11,C12,C19 tier=thorough mem=high kind=harness fns=plane/from_downlink/from_ext.rs:update_from_downlink draw=frame28
-    //@region default path, same frames and rows
-    ext_harness!(l2_step_ext_tc20_31_downlink, Path::Downlink, 20, 31, false);
-    //@ob id=L2.step.ext.tc0.update flags=noassert props=C11,C12 tier=thorough mem=high kind=harness fns=plane/from_squitter.rs:Plane::update draw=frame28
-    //@region -U path, DF17 TC0 (no position information): nothing but the clock changes
-    ext_harness!(l2_step_ext_tc0_update, Path::Update, 0, 0, false);
-    //@ob id=L2.step.ext.tc0.downlink flags=noassert props=C11,C12,C19 tier=thorough mem=high kind=harness fns=plane/from_downlink/from_ext.rs:update_from_downlink draw=frame28
-    //@region default path, DF17 TC0
-    ext_harness!(l2_step_ext_tc0_downlink, Path::Downlink, 0, 0, false);
 }
